@@ -444,6 +444,157 @@ fn restart_through_builder(run: &Run) {
     run.extra("restart_through_builder", serde_json::json!({"network_ids": ids, "runs_per_sequence": runs, "kept_records_checked": kept_checked}));
 }
 
+/// After a crash in the middle of a write: the restart finds a torn file (every byte prefix in thorough; the empty file, 1
+/// byte, half, all but one byte in quick), serves nothing for the key, and life goes on — the same key is stored again
+/// (same or other content, as replication does for a record the node is responsible for and lacks), everything settles,
+/// the periodic clean-up round runs (once or twice), and the node restarts again. The second write completed and was
+/// never removed or overwritten: it must be served before and after that restart.
+fn rewrite_after_torn_restart(run: &Run) {
+    let peer = rigs::fixtures::peer_id(1);
+    let keys = ranked_keys(peer, 2, "c02-torn-rewrite");
+    let v1: Vec<u8> = [&[0x91u8, 1][..], b"first version, torn by the crash"].concat();
+    let v2: Vec<u8> = [&[0x91u8, 1][..], b"another version, written after the restart and a little longer"].concat();
+    // the bytes a complete write of v1 leaves on disk
+    let scratch = fresh_scratch("c02-torn-src");
+    let mut rig = StoreRig::new(&scratch, RigCfg { max_records: 16, cache_size: 2, max_value_bytes: None }, peer);
+    rig.put(&keys[0], &v1).expect("put");
+    rig.settle();
+    let file = rig.storage_dir().join(hexkey(&keys[0]));
+    let full = std::fs::read(&file).expect("record file");
+    drop(rig);
+    let _ = std::fs::remove_dir_all(&scratch);
+    let prefixes: Vec<usize> = if run.quick() { vec![0, 1, full.len() / 2, full.len() - 1] } else { (0..full.len()).collect() };
+    let mut n = 0u64;
+    for p in prefixes {
+        for (vname, again) in [("the same content", &v1), ("other content", &v2)] {
+            for rounds in [1usize, 2] {
+                let scratch = fresh_scratch("c02-torn-rewrite");
+                let dir = scratch.join("record_store");
+                std::fs::create_dir_all(&dir).expect("dir");
+                std::fs::write(dir.join(hexkey(&keys[0])), &full[..p]).expect("torn file");
+                let mut rig = StoreRig::new(&scratch, RigCfg { max_records: 16, cache_size: 2, max_value_bytes: None }, peer);
+                let desc = serde_json::json!({"engine": "torn-file-then-rewrite", "torn_at": p, "of": full.len(), "written_again": vname, "clean_up_rounds": rounds});
+                run.case(desc.to_string().as_bytes(), true);
+                n += 1;
+                if let Some(r) = rig.get(&keys[0]) {
+                    if r.value != v1 {
+                        run.violation("served-value-was-validated", "torn-file-then-rewrite", format!("the restart on a file torn at byte {p} serves bytes that were never validated"), desc.clone());
+                    }
+                }
+                if rig.put(&keys[0], again).is_err() {
+                    run.violation("completed-write-survives", "torn-file-then-rewrite/put-refused", format!("after a restart on a file torn at byte {p} the key cannot be stored again"), desc.clone());
+                    continue;
+                }
+                rig.settle();
+                // roll the two-entry read cache over so that reads come from disk
+                rig.put(&keys[1], &v1).expect("other key");
+                rig.settle();
+                for _ in 0..rounds {
+                    rig.cleanup();
+                    rig.settle();
+                }
+                for phase in ["before the second restart", "after the second restart"] {
+                    if phase.starts_with("after") {
+                        rig = rig.restart();
+                    }
+                    let got = rig.get(&keys[0]).map(|r| r.value);
+                    if got.as_deref() != Some(&again[..]) {
+                        run.violation(
+                            "completed-write-survives",
+                            "torn-file-then-rewrite",
+                            format!("file torn at byte {p} of {}, restart, the key written again ({vname}) and settled, {rounds} clean-up round(s): {phase} the record reads {}", full.len(), if got.is_some() { "other bytes" } else { "nothing" }),
+                            desc.clone(),
+                        );
+                        break;
+                    }
+                }
+                drop(rig);
+                let _ = std::fs::remove_dir_all(&scratch);
+            }
+        }
+    }
+    run.extra("torn_file_then_rewrite_histories", serde_json::json!(n));
+}
+
+/// Completed removals at clean-up scale, across a restart. A store of 1638 / 1650 settled records, nearest first; one key
+/// beyond the coming range (not the farthest) is brought into the state a legitimate completion order produces — a newer
+/// version's write completes, the key is removed, its file deleted, and only then the write's acknowledgement is handled:
+/// the key is listed again without a file (C01's recorded finding) —; a range leaving the 40 / 10 farthest outside; clean-up;
+/// everything settles; the node restarts with the same identity. Every key the clean-up removed is a completed removal and
+/// must stay removed (not served, not listed); every key within the range is a completed write and must be served.
+fn bulk_cleanup_restart(run: &Run) {
+    const THRESHOLD: usize = 16 * 1024 / 10;
+    let peer = rigs::fixtures::peer_id(1);
+    let all = ranked_keys(peer, THRESHOLD + 12, "c02-bulk");
+    let value = |i: usize| -> Vec<u8> { [&[0x91u8, 1][..], format!("bulk {i}").as_bytes()].concat() };
+    let cases: Vec<(usize, usize, bool)> = vec![(THRESHOLD, 40, true), (THRESHOLD, 40, false), (THRESHOLD + 12, 10, true)];
+    std::thread::scope(|sc| {
+        for (n, beyond, stale_key) in cases {
+            let all = &all;
+            sc.spawn(move || {
+                let scratch = fresh_scratch("c02-bulk");
+                let mut rig = StoreRig::new(&scratch, RigCfg { max_records: 16 * 1024, cache_size: 25, max_value_bytes: None }, peer);
+                for (i, k) in all.iter().take(n).enumerate() {
+                    rig.put(k, &value(i)).expect("bulk put");
+                }
+                rig.settle();
+                let gap = n - beyond;
+                let stale = gap + beyond / 2;
+                if stale_key {
+                    let k = &all[stale];
+                    rig.put(k, &[&value(stale)[..], b" v2"].concat()).expect("second version");
+                    // the write, then the removal and its file deletion, and only then the write's acknowledgement
+                    while let Some(id) = rig.exec_unfinished_first() {
+                        rig.run_task(id);
+                    }
+                    rig.remove(k);
+                    while let Some(id) = rig.exec_unfinished_first() {
+                        rig.run_task(id);
+                    }
+                    while rig.deliver() {}
+                    rig.settle();
+                }
+                let me = ant_protocol::NetworkAddress::from_peer(peer);
+                let d = |k: &RecordKey| crate::c10::distance_u256(&me, k);
+                let (lo, hi) = (d(&all[gap - 1]), d(&all[gap]));
+                rig.store.verif_set_responsible_distance_range(lo + (hi - lo) / ant_evm::U256::from(2u8));
+                rig.cleanup();
+                rig.settle();
+                let listed_before: std::collections::BTreeSet<String> = rig.view().records.iter().map(|(k, _)| hexkey(k)).collect();
+                if listed_before.len() >= n {
+                    run.machinery_error("C02 bulk clean-up removed nothing: the scenario would be vacuous");
+                }
+                let rig = rig.restart();
+                let desc = serde_json::json!({"engine": "bulk-clean-up-then-restart", "records": n, "beyond_the_range": beyond, "one_removed_key_listed_without_a_file_beforehand": stale_key});
+                run.case(desc.to_string().as_bytes(), true);
+                let listed: std::collections::BTreeSet<String> = rig.view().records.iter().map(|(k, _)| hexkey(k)).collect();
+                let (mut served_again, mut first) = (0usize, None);
+                for (i, k) in all.iter().take(n).enumerate() {
+                    let got = rig.get(k).map(|r| r.value);
+                    if i >= gap {
+                        if got.is_some() || listed.contains(&hexkey(k)) {
+                            served_again += 1;
+                            first.get_or_insert(i);
+                        }
+                    } else if got.as_deref() != Some(&value(i)[..]) {
+                        run.violation("completed-write-survives", "range-clean-up-then-restart", format!("{n} records: rank {i} is within the range, was written and settled, and is not served after the restart"), desc.clone());
+                    }
+                }
+                if served_again > 0 {
+                    run.violation(
+                        "completed-removal-stays",
+                        "range-clean-up-then-restart",
+                        format!("{n} records: {served_again} of the {beyond} records the clean-up removed (everything had settled) are served or listed again after the restart (first: rank {})", first.unwrap()),
+                        desc.clone(),
+                    );
+                }
+                drop(rig);
+                let _ = std::fs::remove_dir_all(&scratch);
+            });
+        }
+    });
+}
+
 pub fn main(tier: Option<&str>) {
     let run: &'static Run = Box::leak(Box::new(Run::new("C02", "fault_enumeration", tier)));
     run.rule(
@@ -498,6 +649,8 @@ pub fn main(tier: Option<&str>) {
     run.extra("recoveries", serde_json::json!(sh.recoveries.load(std::sync::atomic::Ordering::Relaxed)));
     run.extra("transitions_crashed", serde_json::json!(st.transitions));
     restart_through_builder(run);
+    bulk_cleanup_restart(run);
+    rewrite_after_torn_restart(run);
     // a restart on a record directory that holds a file the node did not write (or wrote under another name)
     let (planted, _) = crate::c17s::sweep(run, "");
     run.extra("planted_file_restarts", serde_json::json!(planted));
